@@ -251,8 +251,9 @@ def case_st(draw, tier, routes=ALL_ROUTES, mutate=False):
     runs = draw(st.integers(0, 7)) == 0
     if runs:
         # byte runs: whole-byte patterns with overlapping occurrences at byte boundaries
-        alphabet = draw(st.lists(bits_of_len(8), min_size=1, max_size=2))
-        content = ''.join(draw(st.lists(st.sampled_from(alphabet), min_size=1, max_size=40))) + draw(bits_st(max_len=7))
+        alphabet = draw(st.lists(bits_of_len(8), min_size=1, max_size=1 if draw(st.booleans()) else 2))
+        whole = route in ('file_name_full', 'file_handle_full', 'pathlib_name', 'file_len_whole', 'file_offset_nolen')
+        content = ''.join(draw(st.lists(st.sampled_from(alphabet), min_size=1, max_size=40))) + ('' if whole and draw(st.integers(0, 3)) else draw(bits_st(max_len=7)))
         n = len(content)
         k = 8 * draw(st.integers(0, n // 8))
         args.update(content=content, same=draw(bits_of_len(n)), pat=content[k:k + 8 * draw(st.integers(1, 3))] or content[:8],
@@ -279,7 +280,7 @@ def case_st(draw, tier, routes=ALL_ROUTES, mutate=False):
         if draw(st.integers(0, 5)) == 0:
             case['op'] = draw(st.sampled_from(SHARING_OPS))
         if runs and draw(st.integers(0, 3)):
-            case['op'] = draw(st.sampled_from(['findall', 'findall', 'find', 'rfind', 'split', 'contains', 'startswith', 'endswith'] + (['readto', 'find_moves'] if cls in STREAMS else [])))
+            case['op'] = draw(st.sampled_from(['findall', 'findall', 'findall', 'findall', 'find', 'rfind', 'split', 'contains', 'startswith', 'endswith'] + (['readto', 'find_moves'] if cls in STREAMS else [])))
     return case
 
 
@@ -370,7 +371,7 @@ FILE_FULL = ['file_name_full', 'file_handle_full', 'pathlib_name']
 
 SUBCHECKS = [
     sub('memory_routes', MEM_ROUTES + EXTRA_ROUTES, 14000, 250000),
-    sub('file_full', FILE_FULL, 4000, 60000),
+    sub('file_full', FILE_FULL, 7000, 90000),
     sub('file_offset', FILE_OFFSET, 5000, 80000),
     sub('file_length_limited', FILE_LIMITED, 6000, 100000),
     sub('mutable_from_route', ALL_ROUTES, 8000, 120000, mutate=True),
